@@ -490,6 +490,26 @@ def rule_d(ctx):
     rule_extent_keywords(ctx, "C01.g")
     ctx.rule("C01.b", "Image.num_voxels is read off the array at the time of the call (see C01.b)")
     _c01.rule_num_voxels(ctx, "C01.b")
+    # the front end: wasserstein_distance builds the grid once, from its first mass image, and hands exactly that grid to the solver -- the masses, the
+    # weight and the grid must describe one geometry (a grid taken from the weight image, or replaced for thin images, changes face areas and cell volumes)
+    wd = m.func("darsia.measure.wasserstein", "wasserstein_distance")
+    if wd is not None:
+        ctx.consult("darsia.measure.wasserstein")
+        ctx.instance(R)
+        binds = [s_ for s_ in ast.walk(wd.node) if isinstance(s_, (ast.Assign, ast.AnnAssign)) and isinstance((s_.targets[0] if isinstance(s_, ast.Assign) else s_.target), ast.Name)
+                 and isinstance(s_.value, ast.Call) and norm(s_.value.func).endswith("generate_grid")]
+        gname = norm(binds[0].targets[0] if isinstance(binds[0], ast.Assign) else binds[0].target) if binds else None
+        if len(binds) != 1:
+            ctx.ob(R, wd.qname, "wasserstein_distance builds one grid, from its first mass image", False, f"{len(binds)} generate_grid bindings -- construction of the grid not found in a single statement", wd.node)
+        else:
+            arg = binds[0].value.args[0] if binds[0].value.args else None
+            other = [s_ for s_ in ast.walk(wd.node) if isinstance(s_, (ast.Assign, ast.AnnAssign, ast.AugAssign)) and s_ is not binds[0]
+                     and norm(s_.targets[0] if isinstance(s_, ast.Assign) else s_.target) == gname]
+            from_first = isinstance(arg, ast.Name) and arg.id == wd.params[0]
+            ctx.ob(R, wd.qname, "wasserstein_distance builds one grid, from its first mass image", from_first and not other,
+                   (f"`{norm(other[0])[:80]}` replaces the grid generated from {wd.params[0]}" if other else f"the grid is generated from `{norm(arg) if arg is not None else None}`, not from {wd.params[0]}")
+                   + ": the solver then discretises another geometry than the masses live on (face areas, cell volumes, dimension of the reported grid)", other[0] if other else binds[0],
+                   evidence=bool(other) or (arg is not None and not from_first))
     ctx.floor(R, 1)
 
 
